@@ -52,6 +52,14 @@ class CallMixin(object):
             n = e.func.id
             if n == 'old':
                 return self.eval(fr.old_state_copy(), e.args[0])
+            if n == 'all_calls':
+                qual = self.const_str(self.eval(st, e.args[0]))
+                expr = self.const_str(self.eval(st, e.args[1]))
+                return V(mkB(self.calls_satisfy(st, qual, expr, fr.contract)), parse_spec('bool'))
+            if n == 'calls_ordered':
+                a = self.const_str(self.eval(st, e.args[0]))
+                b = self.const_str(self.eval(st, e.args[1]))
+                return V(mkB(self.calls_ordered(a, b)), parse_spec('bool'))
             if n == 'FOLD':
                 name = self.const_str(self.eval(st, e.args[0]))
                 k = self.eval(st, e.args[1])
@@ -104,6 +112,9 @@ class CallMixin(object):
             if inspect.isclass(o):
                 return self.call_class(st, o, args, kwargs, line)
             return self.call_builtin(st, o, args, kwargs, line)
+        if isinstance(fv, V) and fv.hint is not None and fv.hint.kind == 'opaque':
+            self.trust('method calls on opaque objects (output streams etc.) have no effect on the modelled state')
+            return V(fresh('opaque_call'), parse_spec('opaque'))
         raise EngineError('call of %r' % (fv,))
 
     def bind(self, fnode, args, kwargs, defaults_from=None, st=None):
